@@ -430,7 +430,9 @@ func VerifC15FieldsSetDefault() {
 }
 
 func VerifC15ReplaceReference() {
-	in := c15Schemas(c15Gen(0))
+	g := c15Gen(0)
+	g.Defaults = true
+	in := c15Schemas(g)
 	from := c15Obj()
 	to := ObjectReference{Package: v.Str("topkg", "p", "q"), Object: v.Str("to", "Bar", "Baz")}
 	ref := v.Clone(in)
